@@ -28,8 +28,8 @@ def check(rep: Report, repo: Optional[Repo] = None) -> None:
 
 
 MANIFEST = dict(
-    technique='own .fj front end: link closure, extents, symbolic stack-pointer effect summaries, pointer stride arithmetic',
-    level_text='Static, PARTIAL: closure and extents as for C04; stack-pointer deltas compose additively (push +1 / pop -1, push n and pop n '
+    technique='own .fj front end: link closure, extents, symbolic stack-pointer effect summaries, pointer stride arithmetic; constant-width rule',
+    level_text='Also: constants written into fixed-width vectors fit. Static, PARTIAL: closure and extents as for C04; stack-pointer deltas compose additively (push +1 / pop -1, push n and pop n '
                'opposite with reversed cell order, call nets 0), so every balanced sequence restores sp; pointer arithmetic moves by '
                'exactly one cell (dw) and ptr_index scales by 2w. It does NOT decide what a dereference reads or writes.',
     level_note='Trusted: fjfront. The value-level body of C08 needs execution and is outside this technique family.',
